@@ -808,6 +808,7 @@ let rec dispatch (k : int) (it : item) (kind : string) (args : string list) : st
       (match args with
        | kind2 :: rest -> dispatch (k + 1000000) (disc_item k it) kind2 rest
        | [] -> failwith "bad ondisc query")
+  | "ctor" -> "harness-decided"      (* how many payload values a call constructs: decided by the harness from the definition *)
   | "casing" -> q_casing args
   | "outcome" -> q_outcome it args
   | "refsok" -> q_refsok args
